@@ -1,5 +1,24 @@
 (* Generated on every run: integer/float kernels of ebb_calc.py translated from /repo's current source by tools/py2v.py --zq,
    followed by the committed equivalence lemmas that tie them to the hand-written model the theorems are about. *)
-From Plotink Require Import Base.Prelude Model.EbbCalc.
+From Plotink Require Import Base.Prelude Model.EbbCalc Proofs.EbbCalcProofs.
 Open Scope Z_scope.
 
+
+(* the translated kernel and the hand model are convertible as long as the source keeps its shape; when a harmless rewrite changes the
+   branch structure (a helper with early returns, a merged or split condition) the fallback unfolds both sides, decides every integer
+   comparison both ways, closes the impossible combinations by linear arithmetic and compares the leaves *)
+#[local] Hint Unfold move_dist_lt move_dist_t3 rate_t3 max_rate_t3 clear_lt clear_t3 : kernels.
+Ltac no_if t := lazymatch t with context [if _ then _ else _] => fail | _ => idtac end.
+Ltac zq_cases :=
+  repeat match goal with
+  | |- context [?a <? ?b] => no_if a; no_if b; let E := fresh "E" in destruct (Z.ltb_spec a b) as [E|E]
+  | |- context [?a <=? ?b] => no_if a; no_if b; let E := fresh "E" in destruct (Z.leb_spec a b) as [E|E]
+  | |- context [?a =? ?b] => no_if a; no_if b; let E := fresh "E" in destruct (Z.eqb_spec a b) as [E|E]
+  end.
+Lemma Qround_he_comp x y : (x == y)%Q -> Qround_he x = Qround_he y.
+Proof. intros E. unfold Qround_he. rewrite (Qfloor_comp _ _ E). cbv zeta. assert (C : ((x - inject_Z (Qfloor y)) ?= 1 # 2)%Q = ((y - inject_Z (Qfloor y)) ?= 1 # 2)%Q) by (rewrite E; reflexivity). rewrite C. reflexivity. Qed.
+(* leaves: syntactically equal, or equal up to integer arithmetic, or roundings of rationals that are equal as rationals (an integer sum
+   injected as a whole on one side and term by term on the other) *)
+Ltac zq_q := unfold iz, Z.sub; repeat first [rewrite inject_Z_plus | rewrite inject_Z_mult | rewrite inject_Z_opp]; first [reflexivity | ring | field].
+Ltac zq_leaf := cbn [negb andb orb]; first [reflexivity | exfalso; lia | (repeat f_equal; first [reflexivity | lia]) | (apply Qround_he_comp; zq_q) | (apply Qtrunc_comp; zq_q) | (apply Qfloor_comp; zq_q)].
+Ltac kernel_eq_zq := intros; first [timeout 30 reflexivity | (autounfold with kernels; cbv beta zeta; zq_cases; zq_leaf)].
